@@ -609,7 +609,13 @@ impl World {
             "deliver n{n}: [{}]",
             used.iter().map(|k| k.to_string()).collect::<Vec<_>>().join(", ")
         ));
+        let _ = klukai_types::verif::applied_take();
         let res = self.node_mut(n).deliver(batch.clone()).await?;
+        // what the node really merged into its tables in this step (guarded hook log)
+        let applied_now: BTreeSet<(usize, u64)> = klukai_types::verif::applied_take()
+            .into_iter()
+            .filter_map(|(actor, v)| self.actor_idx.get(&ActorId::from_bytes(actor)).map(|a| (*a, v)))
+            .collect();
         match res {
             Ok(()) => {
                 let mut newly_covered = vec![];
@@ -674,6 +680,7 @@ impl World {
                         &pre_heads,
                         &pre_ranges,
                         &after_partials,
+                        &applied_now,
                         &pre_known,
                     )? {
                         newly_covered.push(t);
@@ -714,6 +721,7 @@ impl World {
         pre_heads: &BTreeMap<usize, u64>,
         pre_ranges: &BTreeMap<(usize, u64), rangemap::RangeInclusiveSet<u64>>,
         after_partials: &BTreeSet<(usize, u64)>,
+        applied_now: &BTreeSet<(usize, u64)>,
         pre_known: &BTreeMap<(usize, u64), bool>,
     ) -> R<Option<(usize, u64)>> {
         let Some(&a) = self.actor_idx.get(&c.actor_id) else {
@@ -792,7 +800,9 @@ impl World {
                         // completely buffered earlier in this very batch: the node's in-batch
                         // dedupe may or may not catch the complete changeset; both are fine, follow
                         // what the node did (its partial record is gone iff it applied)
-                        if after_partials.contains(&(a, v)) {
+                        // (the partial record can also be gone because an Empty later in the same
+                        // batch superseded the version: go by what the node really merged)
+                        if after_partials.contains(&(a, v)) || !applied_now.contains(&(a, v)) {
                             self.stats.probe("model.complete-over-covered.kept-buffered");
                             return Ok(None);
                         }
